@@ -144,6 +144,19 @@ def _truncated_fourier(ck, D, N, key):
     for idx, m in orc.stored_modes(D, N):
         if max(abs(x) for x in m) > cutoff:
             ck.add(f"{tag}/band/{'_'.join(map(str, idx))}", sym.equal_goal(enc2.outs[0][(0,) + idx], Cx(ZERO, ZERO)), facts, family="RandomTruncatedFourierSeries: Fourier content confined to the cut-off", replay=_tfs_replay(D, N, "band"))
+    # ... and inside the cut-off it IS the white-noise spectrum (every retained mode is present), mean mode zero
+    noise = _last_normal()
+    for idx, m in orc.stored_modes(D, N):
+        if max(abs(x) for x in m) <= cutoff and not orc.is_nyquist(m, N):
+            want = orc.fourier_coeff(noise[0], m, N) if any(m) else Cx(ZERO, ZERO)
+            ck.add(f"{tag}/retained/{'_'.join(map(str, idx))}", sym.equal_goal(enc2.outs[0][(0,) + idx], want), facts, family="RandomTruncatedFourierSeries: retained modes carry the white-noise coefficients",
+                   replay=_tfs_replay(D, N, "retained"))
+    # the same spectral contract with a non-zero offset: nothing outside the cut-off, mean mode = offset * N^D
+    enc2o, _ = encode(lambda: ex.fft(IC.RandomTruncatedFourierSeries(D, cutoff=cutoff, offset_range=(1.0, 3.0))(N, key=key)))
+    for idx, m in orc.stored_modes(D, N):
+        if max(abs(x) for x in m) > cutoff:
+            ck.add(f"{tag}/band-with-offset/{'_'.join(map(str, idx))}", sym.equal_goal(enc2o.outs[0][(0,) + idx], Cx(ZERO, ZERO)), draw_facts(), family="RandomTruncatedFourierSeries: Fourier content confined to the cut-off",
+                   replay=_tfs_replay(D, N, "band-offset"))
     # requested mean offset: mean == the uniform draw from offset_range
     lo, hi = 1.0, 3.0
     enc3, _ = encode(lambda: IC.RandomTruncatedFourierSeries(D, cutoff=cutoff, offset_range=(lo, hi))(N, key=key))
@@ -182,6 +195,15 @@ def _tfs_replay(D, N, what):
             off = float(jax.random.uniform(jax.random.split(key)[1], shape=(1,), minval=lo, maxval=hi)[0])
             e = abs(float(jnp.mean(ic)) - off)
             return {"reproduced": e > 1e-5, "detail": f"RandomTruncatedFourierSeries(D={D}, offset_range=({lo},{hi}))(N={N}): mean {float(jnp.mean(ic)):.6g}, requested offset {off:.6g}"}
+        if what == "band-offset":
+            h = np.asarray(ex.fft(IC.RandomTruncatedFourierSeries(D, cutoff=1, offset_range=(1.0, 3.0))(N, key=key)))
+            e = max([abs(h[(0,) + idx]) for idx, m in orc.stored_modes(D, N) if max(abs(x) for x in m) > 1] + [0.0])
+            return {"reproduced": e > 1e-4, "detail": f"RandomTruncatedFourierSeries(D={D}, offset_range=(1,3))(N={N}): largest coefficient outside the cut-off {e:.3g}"}
+        if what == "retained":
+            h = np.asarray(ex.fft(IC.RandomTruncatedFourierSeries(D, cutoff=1)(N, key=key)))
+            noise = np.asarray(ex.fft(IC.WhiteNoise(D)(N, key=jax.random.split(key)[0])))
+            e = max([abs(h[(0,) + idx] - noise[(0,) + idx]) for idx, m in orc.stored_modes(D, N) if max(abs(x) for x in m) <= 1 and any(m) and not orc.is_nyquist(m, N)] + [0.0])
+            return {"reproduced": e > 1e-4, "detail": f"RandomTruncatedFourierSeries(D={D})(N={N}): retained modes differ from the white-noise spectrum by {e:.3g}"}
         ic = IC.RandomTruncatedFourierSeries(D, cutoff=1, std_one=(what == "std"))(N, key=key)
         if what == "zero":
             e = abs(float(jnp.mean(ic)))
